@@ -9,7 +9,7 @@ INV = ["Coherent", "RegenerateOK"]
 
 def run(tier, argv):
     chk = Check("C04", tier)
-    plans = [("a", ["f2", "fs", "fd"], "all", "all"), ("b", ["fn3", "fvf", "fc", "fa", "fb", "fs2"], "few", "all")]
+    plans = [("a", ["f2", "fs", "fd"], "all", "all"), ("b", ["fn3", "fvf", "fc", "fa", "fb", "fs2", "fsk"], "few", "all")]
     if tier != "quick":
         plans = [("a", ["f2", "fs", "fd", "fc", "fa"], "all", "all"), ("b", ["fn3", "fvf", "fv", "fr", "fsc", "fvs", "fs2", "fcg", "fch", "fe", "fve"], "few", "all"), ("c", ["sc", "sc2", "cTF"], "few", "all")]
     for tag, progs, sims, ua in plans:
